@@ -10,7 +10,7 @@ import (
 )
 
 func init() {
-	registerRule("copy-map", 60, "validation accessors copy every field of the carrier's validation set from the same-named field and nothing else", ruleCopyMap)
+	registerRule("copy-map", 80, "validation accessors copy every field of the carrier's validation set from the same-named field and nothing else", ruleCopyMap)
 	registerRule("clear-exact", 30, "Clear*Validations clears exactly its family, records (keyword, previous value) before clearing, applies callbacks once", ruleClearExact)
 }
 
